@@ -1,0 +1,12 @@
+//go:build verif
+
+// Contracts for the deductive verifier in /verif (govc). Only compiled with -tags verif.
+
+package snapstate
+
+// "prerequisites" tasks are serialised.
+//@ func (*SnapManager).blockedTask
+//@   props C07
+//@   ensures result == (cand.kind == "prerequisites" && exists j int :: 0 <= j && j < len(running) && running[j].kind == "prerequisites")
+//@   loop 0: invariant -1 <= idx0 && idx0 < len(running) && cand.kind == "prerequisites"
+//@   loop 0: invariant forall j int :: 0 <= j && j <= idx0 ==> running[j].kind != "prerequisites"
